@@ -11,6 +11,7 @@ import Driver.Faults
 import Driver.Sess
 import Driver.Own
 import Driver.Write
+import Driver.Par
 
 open Drv
 
@@ -32,6 +33,7 @@ def dispatch (line : String) : Res :=
   | "sess" :: args => runSess args
   | "own" :: args => runOwn args
   | "write" :: args => runWrite args
+  | "par" :: args => runPar args
   | "racy" :: args => runRacy args
   | _ => bad "unknown-suite"
 
